@@ -51,7 +51,7 @@ CHECKS = {
  "C09": ("fault_enumeration",
          "exhaustive crash-point enumeration: every durable step of each scenario is a kill point (child process aborted by hook), judged by reopen + validate + reference unspent set + re-delivery vs uninterrupted twin",
          "c09",
-         "For each scenario (plain extension, fork block, reorg with spends, header-by-header and header-batch reorg, compaction; thorough adds compaction+block, first start, reorg after compaction) every crash point the interrupted operation executes (74/4/74/22/18/42 in quick, 567 in thorough) is exercised: a child process is killed at it, a second process reopens the directory and checks Chain::init, allowed head, validate(false), the unspent set against the reference replay, and equality with an uninterrupted twin after re-delivery. Genuine defects found on the unchanged tree are listed per (scenario, crash label, failure kind) in known_findings.json; any other failing crash point is a VIOLATION.",
+         "For each scenario (plain extension, fork block, reorg with spends, header-by-header and header-batch reorg, compaction, and the extension / fork block / reorg again under version-5 headers; thorough adds compaction+block, first start, reorg after compaction, restarts, orphan cascade, body sync of a known header fork, and a second kill during every recovering restart) every crash point the interrupted operation executes (460 in quick) is exercised: a child process is killed at it, a second process reopens the directory and checks Chain::init, allowed head, validate(false), the unspent set against the reference replay, and equality with an uninterrupted twin after re-delivery. Genuine defects found on the unchanged tree are listed per (scenario, crash label, failure kind) in known_findings.json; any other failing crash point is a VIOLATION.",
          "Kill = process death (page cache survives). Crash points are the hook call sites (MANIFEST.hooks). Quick: 10 scenarios incl. extension (coinbase-only / spending), fork block and reorganisation under version-5 headers (460 crash points). Thorough: 17 scenarios (adds compaction+block, first start, reorg after compaction, restart of a consistent / compacted node, orphan cascade, bodies of a fork whose headers are known) and, for every crash point the node recovers from, a SECOND kill at every crash point of the restart (67 529 histories, about 25 min). About 1 900 known findings remain after four repairs (DESIGN 9.4): 1 701 of them are second-kill histories of one scenario under pre-version-3 headers; a change that fails at a crash history already listed with the same failure kind is masked.",
          "DESIGN.md §4 C09"),
  "C10": ("exploration",
